@@ -79,6 +79,9 @@ def judge(v, o):
     if "compact_ok" in ob and (ob["compact_ok"] != ob["flat_ok"] or ob["compact_out"] != ob["flat_out"]):
         return ("the unparenthesised form evaluates differently when no blank separates an alphabetic operator from a sign, quote or bracket",
                 common.show(bytes(ob["flat_out"])), {"src": ob.get("compact_src"), "out": common.show(bytes(ob["compact_out"])), "err": ob.get("compact_err")})
+    if "condflat_ok" in ob and (ob["condflat_ok"] != ob["condparen_ok"] or ob["condflat_out"] != ob["condparen_out"]):
+        return ("as a condition (if, elseif, for-if, set, ?:) the unparenthesised form decides differently from its fully parenthesised form",
+                common.show(bytes(ob["condparen_out"])), {"src": ob.get("condflat_src"), "out": common.show(bytes(ob["condflat_out"])), "err": ob.get("condflat_err")})
     if exp["status"] == "ok" and (not ob["flat_ok"] or bytes(ob["flat_out"]) != bytes(exp["out"])):
         return "value differs from the reference", common.show(bytes(exp["out"])), common.show(bytes(ob["flat_out"])) if ob["flat_ok"] else ob.get("flat_err")
     if exp["status"] == "err" and ob["flat_ok"]:
